@@ -193,6 +193,8 @@ class Shadow:
         # re-created under it is confused with the renamed one (a pymap defect
         # outside C14/C15; the model does not reproduce it)
         self.retired: set = set()
+        # folders whose uid list still records expunged messages (no CHECK since)
+        self.stale: set = set()
 
     def new_cid(self) -> int:
         self.cid += 1
@@ -229,10 +231,14 @@ class Shadow:
             f = self.folders[self.sel[0]]
             for u in [u for u, (fl, _) in f['msgs'].items() if 'T' in fl]:
                 del f['msgs'][u]
+                self.stale.add(self.sel[0])
             if k == 'close':
                 self.sel = None
         elif k == 'close':
             self.sel = None
+        elif k == 'check':
+            if self.sel:
+                self.stale.discard(self.sel[0])
         elif k == 'create':
             self.folders[tuple(c[1])] = {'next': 1, 'msgs': {}}
         elif k == 'rename':
@@ -263,8 +269,9 @@ def gen_history(rng, n: int, *, weights: dict | None = None) -> list:
         sel = sh.sel
         selmsgs = sorted(sh.folders[sel[0]]['msgs']) if sel else []
         c = None
+        stale = [f for f in folders if f in sh.stale]
         if k == 'append':
-            f = rng.choice(folders)
+            f = rng.choice(stale) if stale and rng.random() < 0.5 else rng.choice(folders)
             m = 1 if rng.random() < 0.7 else rng.randint(2, 3)
             c = ('append', list(f), [(''.join(sorted(rng.sample('DFRST', rng.randint(0, 2)))),
                                       sh.new_cid()) for _ in range(m)])
@@ -289,6 +296,9 @@ def gen_history(rng, n: int, *, weights: dict | None = None) -> list:
             if not others:
                 continue
             g = rng.choice(others)
+            st = [f for f in others if f in sh.stale]
+            if st and rng.random() < 0.6:
+                g = rng.choice(st)      # a destination still recording expunged messages
             if k == 'copy' and rng.random() < 0.08:
                 g = ('nonexistent',)
             uids = sorted(rng.sample(selmsgs, rng.randint(1, min(2, len(selmsgs)))))
@@ -444,6 +454,14 @@ def durability_failures(res: dict, cr: dict) -> list[tuple[str, str, dict]]:
                 fails.append(('served_after_restart',
                               f'{f} uid {uid} lost by an interrupted {inflight[0]} that only '
                               f'changes flags', {'kind': 'lost_message'}))
+            if not cands and inflight and inflight[0] == 'move':
+                # not acknowledged as moved: the message must still be served,
+                # from the source or from the destination
+                if not any(m['body'] == body for g in rec['folders'].values() for m in g['msgs']):
+                    fails.append(('served_after_restart',
+                                  f'{f} uid {uid} (cid {M.cid_of(bytes.fromhex(body))}), '
+                                  f'acknowledged, is served from no mailbox after a kill at '
+                                  f'operation {cr["k"]} of {inflight}', {'kind': 'lost_message'}))
             if not cands:
                 # gone from (f, uid): it must not still be in f under another uid
                 # (unless the interrupted command itself adds such a copy to f)
